@@ -48,6 +48,8 @@ Definition expand (body pc : nat) (i : instr) : list micro :=
   | IBlockOn a v w => [MBlockOn a v w]
   | IWake w => [MBranch w AOpaque BMutexLocked; MWakeTake w true]
   | ITakeWaker w => [MBranch w AOpaque BMutexLocked; MWakeTake w false]
+  | IBlockOnS a v b1 b2 => [MBlockOnS a v b1 b2]
+  | IWakeMine => [MWakeMine]
   | ITlsWith k => [MTlsWith k]
   | ILazyGet k => [MLazyGet k]
   | IPanic => [MPanic]
@@ -65,8 +67,8 @@ Fixpoint expand_body_from (body pc : nat) (l : list instr) : list micro :=
 (* what runs after the user closure: thread.rs spawn_internal / model.rs *)
 Definition exit_seq (body : nat) : list micro :=
   match body with
-  | 0 => [MReleaseAll; MLazyDrop; MDropLocals; MTerminate]
-  | _ => [MReleaseAll; MExitNotify; MDropLocals; MTerminate]
+  | 0 => [MReleaseAll; MDropMyWaker; MLazyDrop; MDropLocals; MTerminate]
+  | _ => [MReleaseAll; MDropMyWaker; MExitNotify; MDropLocals; MTerminate]
   end.
 
 Definition expand_prog (p : prog) : list (list micro) :=
